@@ -33,6 +33,38 @@ var tmplAtoms = []string{
 	"{{.Nope}}", "{{nope .Vector}}", "{{.BaseScore | printf \"%5s\"}}", "{{len .Vector}}", "{{.Vector.X}}",
 	"{{if .Vector}}", "{{if .Nope}}", "{{else}}", "{{end}}", "{{with .BaseReport}}", "{{with .TemporalReport}}", "{{range .Vector}}",
 	"{{/* c */}}", "{{- .Version -}}", "{{", "{{template \"t\"}}", "{{define \"t\"}}T{{end}}", "{{$v := .Vector}}{{$v}}",
+	// markup contexts: a template engine that escapes by context (html/template) renders these differently
+	"<a href=\"{{.Vector}}\">", "<script>var s = {{.BaseScore}}; var n = \"{{.AVValue}}\";</script>", "<p title='{{.SeverityValue}}' onclick=\"f({{.Version}})\">&amp;<",
+}
+
+// tmplPrograms: larger programs than the atom sequences reach (recursion that terminates, nested
+// definitions, blocks, variables, comparisons, range with else, pipelines with several stages,
+// whitespace trimming), valid and invalid ones.  The oracle is the same: text/template.
+var tmplPrograms = []string{
+	`{{define "rev"}}{{if .}}{{template "rev" (slice . 1)}}{{slice . 0 1}}{{end}}{{end}}{{template "rev" .Version}}`,
+	`{{define "a"}}[{{template "b" .}}]{{end}}{{define "b"}}({{.Vector}}){{end}}{{template "a" .}}{{template "b" .}}`,
+	`{{define "loop"}}{{template "loop" .}}{{end}}{{template "loop" .}}`,
+	`{{define "g"}}{{if eq . "x"}}{{else}}{{template "g" "x"}}y{{end}}{{end}}{{template "g" .Version}}`,
+	`{{block "title" .}}default {{.Version}}{{end}} {{define "title"}}never{{end}}`,
+	`{{block "t" .}}{{.Vector}}{{end}}{{block "t" .}}twice{{end}}`,
+	`{{$a := .Vector}}{{$b := len $a}}{{if gt $b 10}}{{$a}} is long ({{$b}}){{else}}short{{end}}`,
+	`{{with $x := .BaseScore}}{{$x}}{{else}}none{{end}}{{with .Nope}}x{{end}}`,
+	`{{range $i, $c := .Version}}{{$i}}={{$c}};{{else}}empty{{end}}`,
+	`{{range .Version}}{{.}}{{break}}{{end}}|{{range .Version}}{{continue}}{{.}}{{end}}`,
+	`{{.Vector | printf "%q" | len | printf "%05d"}} {{printf "%s/%s" .Version .BaseScore | html}} {{.Vector | urlquery}} {{js .Vector}}`,
+	`{{if and .Vector (not .Nope)}}a{{else if or .Version .Vector}}b{{else}}c{{end}}`,
+	`{{if and .Vector .BaseScore}}{{if eq .Version "3.1" "3.0"}}v3{{end}}{{end}} {{index .Version 0}} {{slice .Vector 0 8}}`,
+	`{{ .Version -}}   {{- /* trimmed */ -}}   {{- .BaseScore }}|{{"a" -}} b {{- "c"}}`,
+	`{{with .BaseReport}}{{with .BaseReport}}{{.Vector}}{{end}}{{end}}`,
+	`{{with .TemporalReport}}{{.BaseReport.Vector}}|{{.Vector}}|{{.SeverityValue}}{{end}}`,
+	`{{template "missing" .}}`,
+	`{{define "x"}}1{{end}}{{define "x"}}2{{end}}{{template "x"}}`,
+	`{{define "args"}}{{.}}{{end}}{{template "args" .BaseScore}}{{template "args"}}{{template "args" 7}}`,
+	`{{index .Vector 1000}}`, `{{slice .Vector 5 2}}`, `{{call .Vector}}`, `{{.Vector.Nope.Deeper}}`, `{{printf "%d" .Vector}}`, `{{len 3}}`,
+	`{{if}}x{{end}}`, `{{range}}`, `{{end}}`, `{{else}}`, `{{define "u"}}`, `{{template}}`, `{{$x}}`, `{{.Vector | }}`, `{{"unterminated}}`,
+	`<table>{{range $k, $v := .Version}}<tr><td>{{$k}}</td><td title="{{$v}}">{{$v}}</td></tr>{{end}}</table><a href="?v={{.Vector}}&s={{.BaseScore}}">{{.SeverityName}}</a>`,
+	`<script>var r = {"vector": "{{.Vector}}", "score": {{.BaseScore}}, "sev": '{{.SeverityValue}}'};</script><style>p { content: "{{.Version}}" }</style>`,
+	`| {{.AVName}} | {{.AVValue}} |\n|---|---|\n{{/* markdown */}}**{{.SeverityName}}**: _{{.SeverityValue}}_ ({{.BaseScore}})`,
 }
 
 type exporter interface {
@@ -273,6 +305,75 @@ func init() {
 				}
 			}
 		})
+		r.Phase("larger programs", func() {
+			for _, text := range tmplPrograms {
+				templates++
+				for _, tg := range tgs {
+					tg, text := tg, text
+					checkExport(r, st, tg, text, "ExportWithString", func() (io.Reader, error) { return tg.rep.ExportWithString(text) })
+					checkExport(r, st, tg, text, "ExportWith(strings.Reader)", func() (io.Reader, error) { return tg.rep.ExportWith(strings.NewReader(text)) })
+				}
+			}
+		})
+		// templates around buffer sizes: filler of every length B-4..B+1 for B in {256 ... 65536},
+		// followed by multi-byte text and an action, so that a multi-byte character straddles every
+		// likely internal boundary (round 5, C19-B-r5: a validity check on a fixed-size window)
+		r.Phase("multi-byte text across buffer boundaries", func() {
+			var texts []string
+			for _, b := range []int{256, 512, 1024, 2048, 4096, 8192, 16384, 32768, 65536} {
+				for d := -4; d <= 1; d++ {
+					texts = append(texts, strings.Repeat("a", b+d)+"日本語のテンプレート {{.Vector}} é😀 {{.SeverityValue}}")
+				}
+			}
+			safeParallel(r, len(texts), func(i int) {
+				text := texts[i]
+				for _, tg := range tgs[:2] {
+					tg := tg
+					atomic.AddInt64(&templates, 1)
+					checkExport(r, st, tg, text, "ExportWithString", func() (io.Reader, error) { return tg.rep.ExportWithString(text) })
+					checkExport(r, st, tg, text, "ExportWith(strings.Reader)", func() (io.Reader, error) { return tg.rep.ExportWith(strings.NewReader(text)) })
+					checkExport(r, st, tg, text, "ExportWith(bytes.Buffer)", func() (io.Reader, error) { return tg.rep.ExportWith(bytes.NewBufferString(text)) })
+					checkExport(r, st, tg, text, "ExportWith(one byte/Read)", func() (io.Reader, error) { return tg.rep.ExportWith(&oneByte{text}) })
+					checkExport(r, st, tg, text, "ExportWith(data with EOF)", func() (io.Reader, error) { return tg.rep.ExportWith(&dataWithEOF{s: text}) })
+				}
+			})
+		})
+		// readers handed out by earlier exports must keep their content however many exports
+		// follow before they are drained (round 5, C01-B-r5: a ring of reused render buffers)
+		r.Phase("readers drained late", func() {
+			type pending struct {
+				rd   io.Reader
+				want string
+				cs   map[string]any
+			}
+			var ps []pending
+			for round := 0; round < 3; round++ {
+				for k := 0; k < 24; k++ {
+					tg := tgs[k%len(tgs)]
+					text := fmt.Sprintf("%d:%d {{.Vector}} {{.SeverityValue}} {{.BaseScore}} %s", round, k, strings.Repeat("·", k))
+					want, stage := reference(tg.data, text)
+					if stage != "" {
+						continue
+					}
+					rd, err := tg.rep.ExportWithString(text)
+					if k%2 == 1 {
+						rd, err = tg.rep.ExportWith(strings.NewReader(text))
+					}
+					templates++
+					if err != nil || isNilReader(rd) {
+						continue // judged by the other phases
+					}
+					ps = append(ps, pending{rd, want, map[string]any{"report": tg.name, "template": text, "via": fmt.Sprintf("reader kept while %d further exports were made, then drained", 0)}})
+				}
+			}
+			for i, p := range ps {
+				got, rerr, rp := readAll(p.rd)
+				if rerr != nil || rp != "" || got != p.want {
+					p.cs["via"] = fmt.Sprintf("reader kept while %d further exports were made, then drained", len(ps)-1-i)
+					r.Violate(ev.Violation{Kind: "export-output", Case: p.cs, Observed: fmt.Sprintf("%q err=%v panic=%q", got, rerr, rp), Expected: fmt.Sprintf("%q", p.want)})
+				}
+			}
+		})
 		// readers: every template of <= 2 atoms through every reader behaviour
 		var readerCases, faultCases int64
 		r.Phase("readers and read faults", func() {
@@ -417,7 +518,7 @@ func init() {
 		r.Sample(map[string]any{"template": "{{with .TemporalReport}}{{.Vector}}{{end}}", "reports": "base/temporal/environmental x en/ja", "via": "ExportWithString"})
 		r.Sample(map[string]any{"template": "{{if .Vector}}{{.Nope}}", "reader": "failing after k bytes for every k <= len"})
 		r.Set("exhaustive", true)
-		r.Set("rule", fmt.Sprintf("every sequence of <= %d atoms over a %d-atom template grammar (literals, field references of all three report levels incl. shadowed ones, unknown field/function, pipelines, if/else/end/with/range as separate atoms so that unbalanced and type-incorrect programs occur, comments, trim markers, bare '{{', define/template) x 3 report levels x 2 languages, compared with Go's text/template parsed and executed afresh on the same report value; every template of <= 2 atoms through 5 reader behaviours and through a reader failing after k bytes for every k <= len with each of 10 error values (io.ErrUnexpectedEOF, a wrapped io.EOF, closed pipe, ...); nil reader; nil reports; distinct by template text", maxAtoms, na))
+		r.Set("rule", fmt.Sprintf("every sequence of <= %d atoms over a %d-atom template grammar (literals, field references of all three report levels incl. shadowed ones, unknown field/function, pipelines, if/else/end/with/range as separate atoms so that unbalanced and type-incorrect programs occur, comments, trim markers, bare '{{', define/template, three markup contexts) plus a catalogue of larger programs (terminating and unbounded recursion, nested definitions, blocks, variables, range/else, break/continue, multi-stage pipelines, markup documents) x 3 report levels x 2 languages, compared with Go's text/template parsed and executed afresh on the same report value; every template of <= 2 atoms through 5 reader behaviours and through a reader failing after k bytes for every k <= len with each of 10 error values (io.ErrUnexpectedEOF, a wrapped io.EOF, closed pipe, ...); templates with multi-byte text across every buffer boundary 256...65536; readers drained after up to 70 further exports; nil reader; nil reports; distinct by template text", maxAtoms, na))
 		r.Assume("Go's text/template is the reference for 'faithful' (the property's own definition)")
 		if atomic.LoadInt64(&st.okRef) == 0 || atomic.LoadInt64(&st.parseFail) == 0 || atomic.LoadInt64(&st.execFail) == 0 {
 			r.Infra("vacuity guard: the template grammar did not produce all three reference outcomes")
